@@ -268,6 +268,72 @@ pub fn spmat_ops_small(s: &mut Src) -> R {
     for j in 0..n { let v = a.col_vec(j).to_dense(); ob!((0..m).all(|i| v[i] == da[i][j]), "SpMat::col_vec"); }
     Ok(())
 }
+// C13: SpVec and the dense Mat against references computed here.  SpVec: From<Vec>, to_dense / into_vec, unit, zero, is_zero, + - neg,
+// permute, subvec, stack, split, stack_vecs, from_sorted_entries, SpMat * SpVec.  Mat: from_data, zero, id, is_id, is_zero, diag, is_diag,
+// submat(_rows/_cols), += -= neg *, into_sparse / into_dense round trip.  Dimensions up to 4, entries in -3..=3.  Sampled, bounded.
+pub fn spvec_mat_ops_small(s: &mut Src) -> R {
+    use yui_matrix::sparse::{SpMat, SpVec};
+    use yui_matrix::MatTrait;
+    use yui_matrix::sparse::pivot::perms_by_pivots;
+    let (m, n) = (s.small(1, 4) as usize, s.small(1, 4) as usize);
+    let mut ea = vec![0i64; 16]; let mut eb = vec![0i64; 16];
+    for x in ea.iter_mut().chain(eb.iter_mut()) { let v = s.small(-5, 5); *x = if v.abs() > 3 { 0 } else { v }; }
+    let mut ev = vec![0i64; 4]; let mut ew = vec![0i64; 4];
+    for x in ev.iter_mut().chain(ew.iter_mut()) { let v = s.small(-5, 5); *x = if v.abs() > 3 { 0 } else { v }; }
+    let (a0, a1, c0, c1, r0, r1) = (s.small(0, 4) as usize, s.small(0, 4) as usize, s.small(0, 4) as usize, s.small(0, 4) as usize, s.small(0, 4) as usize, s.small(0, 4) as usize);
+    let mut pl = [0usize; 4]; for i in 0..4 { pl[i] = s.small(0, 3) as usize; }
+    reach!();
+    // ---- SpVec (dimension n)
+    let dv: Vec<i64> = ev[..n].to_vec(); let dw: Vec<i64> = ew[..n].to_vec();
+    let (v, w) = (SpVec::from(dv.clone()), SpVec::from(dw.clone()));
+    ob!(v.dim() == n && v.to_dense() == dv && v.clone().into_vec() == dv, "SpVec::from/to_dense/into_vec/dim");
+    ob!(v.is_zero() == dv.iter().all(|&x| x == 0), "SpVec::is_zero");
+    ob!(SpVec::<i64>::zero(n).to_dense() == vec![0; n] && SpVec::<i64>::zero(n).is_zero(), "SpVec::zero");
+    let u = a0 % n; let mut du = vec![0i64; n]; du[u] = 1;
+    ob!(SpVec::<i64>::unit(n, u).to_dense() == du, "SpVec::unit");
+    ob!((&v + &w).to_dense() == (0..n).map(|i| dv[i] + dw[i]).collect::<Vec<_>>(), "SpVec::add");
+    ob!((&v - &w).to_dense() == (0..n).map(|i| dv[i] - dw[i]).collect::<Vec<_>>(), "SpVec::sub");
+    ob!((-&v).to_dense() == dv.iter().map(|x| -x).collect::<Vec<_>>(), "SpVec::neg");
+    let (s1, s0) = { let e = a1 % (n + 1); (e, a0 % (e + 1)) };
+    ob!(v.subvec(s0..s1).to_dense() == dv[s0..s1].to_vec() && v.subvec(s0..s1).dim() == s1 - s0, "SpVec::subvec");
+    ob!(v.stack(&w).to_dense() == dv.iter().chain(dw.iter()).cloned().collect::<Vec<_>>(), "SpVec::stack");
+    let (v1, v2) = v.split(s1);
+    ob!(v1.to_dense() == dv[..s1].to_vec() && v2.to_dense() == dv[s1..].to_vec(), "SpVec::split");
+    ob!(SpVec::stack_vecs(vec![v.clone(), w.clone(), v.clone()]).to_dense() == dv.iter().chain(dw.iter()).chain(dv.iter()).cloned().collect::<Vec<_>>(), "SpVec::stack_vecs");
+    ob!(SpVec::from_sorted_entries(n, dv.iter().cloned().enumerate().filter(|(_, x)| *x != 0)).to_dense() == dv, "SpVec::from_sorted_entries");
+    // permutation of dimension n through perms_by_pivots on an n x n matrix (rows and columns listed alike)
+    let mut lst: Vec<usize> = vec![]; for &x in pl.iter() { if x < n && !lst.contains(&x) { lst.push(x); } } for x in 0..n { if !lst.contains(&x) { lst.push(x); } }
+    let sq = SpMat::<i64>::zero((n, n));
+    let (p, _) = perms_by_pivots(&sq, &lst.iter().map(|&i| (i, i)).collect::<Vec<_>>());
+    ob!(v.permute(p.view()).to_dense() == (0..n).map(|i| dv[lst[i]]).collect::<Vec<_>>(), "SpVec::permute(p)[i]==v[listing_p[i]]");
+    // SpMat (m x n) * SpVec (n)
+    let da: Vec<Vec<i64>> = (0..m).map(|i| (0..n).map(|j| ea[i * 4 + j]).collect()).collect();
+    let db: Vec<Vec<i64>> = (0..m).map(|i| (0..n).map(|j| eb[i * 4 + j]).collect()).collect();
+    let sa = SpMat::from_dense_data((m, n), da.iter().flatten().cloned().collect::<Vec<_>>());
+    ob!((&sa * &v).to_dense() == (0..m).map(|i| (0..n).map(|j| da[i][j] * dv[j]).sum()).collect::<Vec<i64>>(), "SpMat*SpVec");
+    ob!(v.clone().into_mat().into_dense() == Mat::from_data((n, 1), dv.clone()), "SpVec::into_mat");
+    // ---- dense Mat
+    let (a, b) = (Mat::from_data((m, n), da.iter().flatten().cloned().collect::<Vec<_>>()), Mat::from_data((m, n), db.iter().flatten().cloned().collect::<Vec<_>>()));
+    let same = |x: &Mat<i64>, d: &Vec<Vec<i64>>, r: usize, c: usize| x.shape() == (r, c) && (0..r).all(|i| (0..c).all(|j| x[(i, j)] == d[i][j]));
+    ob!(same(&a, &da, m, n), "Mat::from_data(row-major)");
+    ob!(a.is_zero() == da.iter().flatten().all(|&x| x == 0) && Mat::<i64>::zero((m, n)).is_zero(), "Mat::zero/is_zero");
+    ob!(a.is_id() == (m == n && (0..m).all(|i| (0..n).all(|j| da[i][j] == if i == j { 1 } else { 0 }))) && Mat::<i64>::id(n).is_id(), "Mat::id/is_id");
+    ob!(a.is_diag() == (0..m).all(|i| (0..n).all(|j| i == j || da[i][j] == 0)), "Mat::is_diag");
+    let dg = Mat::diag((m, n), dv.iter().take(m.min(n)).cloned());
+    ob!((0..m).all(|i| (0..n).all(|j| dg[(i, j)] == if i == j { dv[i] } else { 0 })), "Mat::diag");
+    let (rr1, cc1) = (r1 % (m + 1), c1 % (n + 1)); let (rr0, cc0) = (r0 % (rr1 + 1), c0 % (cc1 + 1));
+    let sub: Vec<Vec<i64>> = (rr0..rr1).map(|i| (cc0..cc1).map(|j| da[i][j]).collect()).collect();
+    ob!(same(&a.submat(rr0..rr1, cc0..cc1), &sub, rr1 - rr0, cc1 - cc0), "Mat::submat");
+    ob!(same(&a.submat_rows(rr0..rr1), &(rr0..rr1).map(|i| da[i].clone()).collect(), rr1 - rr0, n), "Mat::submat_rows");
+    ob!(same(&a.submat_cols(cc0..cc1), &(0..m).map(|i| da[i][cc0..cc1].to_vec()).collect(), m, cc1 - cc0), "Mat::submat_cols");
+    let mut t = a.clone(); t += &b; ob!(same(&t, &(0..m).map(|i| (0..n).map(|j| da[i][j] + db[i][j]).collect()).collect(), m, n), "Mat::add_assign");
+    let mut t = a.clone(); t -= &b; ob!(same(&t, &(0..m).map(|i| (0..n).map(|j| da[i][j] - db[i][j]).collect()).collect(), m, n), "Mat::sub_assign");
+    ob!(same(&(-&a), &(0..m).map(|i| (0..n).map(|j| -da[i][j]).collect()).collect(), m, n), "Mat::neg");
+    let bt = Mat::from_data((n, m), (0..n).flat_map(|j| (0..m).map(move |i| (j, i))).map(|(j, i)| db[i][j]).collect::<Vec<_>>());
+    ob!(same(&(&a * &bt), &(0..m).map(|i| (0..m).map(|k| (0..n).map(|j| da[i][j] * db[k][j]).sum()).collect()).collect(), m, m), "Mat::mul");
+    ob!(a.clone().into_sparse().into_dense() == a, "Mat::into_sparse.into_dense==id");
+    Ok(())
+}
 // C09 / C10: the ASSUMED contracts of the dense matrix container's elementary operations, tested against the real `Mat`:
 // each operation equals left / right multiplication by the elementary matrix the overlays (units snf_prims, lll_prims) name.
 pub fn snf_mat_ops(s: &mut Src) -> R {
@@ -299,4 +365,4 @@ pub fn snf_mat_ops(s: &mut Src) -> R {
     }
     Ok(())
 }
-crate::harness_table!(SNF: snf_small [unwind 4], snf_gauss_small [unwind 4], trans_small [unwind 4], lll_small [unwind 4], snf_mat_ops [unwind 4], lll_rows45 [unwind 4], spmat_ops_small [unwind 4]);
+crate::harness_table!(SNF: snf_small [unwind 4], snf_gauss_small [unwind 4], trans_small [unwind 4], lll_small [unwind 4], snf_mat_ops [unwind 4], lll_rows45 [unwind 4], spmat_ops_small [unwind 4], spvec_mat_ops_small [unwind 4]);
